@@ -167,6 +167,12 @@ Definition tt_ (_ : st) := true.
 Definition agent_pc (s : st) (t : nat) : option (ag * pc) :=
   match cur s t with Some a => Some (a, apc s a) | None => None end.
 
+(* the wait()/join() call the agent current on thread t is in *)
+Definition jcall_at (s : st) (t : nat) : option (ag * nat * jpc) :=
+  match agent_pc s t with
+  | Some (a, InJ d) => match call_of s a d with Some p => Some (a, d, p) | None => None end
+  | _ => None end.
+
 Definition plan_ev (s0 : st) (x : aux) (e : list Z) : option plan :=
   match e with
   | [code; za; o; v] =>
@@ -207,7 +213,7 @@ Definition plan_ev (s0 : st) (x : aux) (e : list Z) : option plan :=
     | 6 => ret [AJoin t (Z.to_nat o) (jmode_of v)] tt_ x
     | 7 => let d := Z.to_nat o in
            match agent_pc s t with
-           | Some (_, Idle) => guard (negb (jbusy (co s d)) && (Z.eqb v 0 || res_eqb (jret (co s d)) v)) (ret [] tt_ x)
+           | Some (_, Idle) => guard (negb (is_some (jcall (co s d))) && (Z.eqb v 0 || res_eqb (jret (co s d)) v)) (ret [] tt_ x)
            | _ => None end
     | 8 => ret [AIsDone t (Z.to_nat o)] tt_ x
     | 9 => match agent_pc s t with Some (_, Idle) => ret [] tt_ x | _ => None end
@@ -275,50 +281,50 @@ Definition plan_ev (s0 : st) (x : aux) (e : list Z) : option plan :=
             | FPan c :: _ => go c (match upc (co s c) with PT2 => true | _ => false end)
             | _ => None end
     (* ---- Join::wait / join / is_done ---- *)
-    | 23 => match agent_pc s t with
-            | Some (a, JW0 d m) =>
+    | 23 => match jcall_at s t with
+            | Some (a, d, JW0 m) =>
                 match bind_obj (ost x) d o with
                 | Some mo => guard (Bool.eqb (zb v) (jstate (co s d))) (ret [AStep t] tt_ (x_ost x mo))
                 | None => None end
-            | Some (AT _, JW3 d m b) =>          (* the thread's park is over: with its token, or woken without *)
+            | Some (AT _, d, JW3 m b) =>          (* the thread's park is over: with its token, or woken without *)
                 match bind_obj (ost x) d o with
                 | Some mo => guard (Bool.eqb (zb v) (jstate (co s d)))
                                (ret (if tok s b then [AStep t; AStep t] else [AStep t; AFire t; AStep t]) tt_ (x_ost x mo))
                 | None => None end
-            | Some (AC _, JW3 d m b) =>          (* the coroutine's park returned at once: it saw the token *)
+            | Some (AC _, d, JW3 m b) =>          (* the coroutine's park returned at once: it saw the token *)
                 match bind_obj (ost x) d o, token_acts s d b with
                 | Some mo, Some l => guard (Bool.eqb (zb v) (jstate (co s d))) (ret (l ++ [AStep t; AStep t]) tt_ (x_ost x mo))
                 | _, _ => None end
             | _ => None end
-    | 24 => match agent_pc s t with
-            | Some (a, JW1 d m) => match bind_obj (owk x) d o with
-                                   | Some mo => guard (zb v) (ret [AStep t] tt_ (x_owk x mo))
-                                   | None => None end
+    | 24 => match jcall_at s t with
+            | Some (a, d, JW1 m) => match bind_obj (owk x) d o with
+                                    | Some mo => guard (zb v) (ret [AStep t] tt_ (x_owk x mo))
+                                    | None => None end
             | _ => None end
-    | 25 => match agent_pc s t with
-            | Some (a, JW2 d m b) => match bind_obj (ost x) d o with
-                                     | Some mo => guard (Bool.eqb (zb v) (jstate (co s d))) (ret [AStep t] tt_ (x_ost x mo))
-                                     | None => None end
+    | 25 => match jcall_at s t with
+            | Some (a, d, JW2 m b) => match bind_obj (ost x) d o with
+                                      | Some mo => guard (Bool.eqb (zb v) (jstate (co s d))) (ret [AStep t] tt_ (x_ost x mo))
+                                      | None => None end
             | _ => None end
-    | 26 => match agent_pc s t with
-            | Some (a, JW4 d m b) => match bind_obj (owk x) d o with
-                                     | Some mo => guard (Bool.eqb (zb v) (is_some (jwake (co s d)))) (ret [AStep t] tt_ (x_owk x mo))
-                                     | None => None end
+    | 26 => match jcall_at s t with
+            | Some (a, d, JW4 m b) => match bind_obj (owk x) d o with
+                                      | Some mo => guard (Bool.eqb (zb v) (is_some (jwake (co s d)))) (ret [AStep t] tt_ (x_owk x mo))
+                                      | None => None end
             | _ => None end
     | 27 => match agent_pc s t with
             | Some (a, ID0 d) => match bind_obj (ost x) d o with
                                  | Some mo => guard (Bool.eqb (zb v) (jstate (co s d))) (ret [AStep t] tt_ (x_ost x mo))
                                  | None => None end
             | _ => None end
-    | 28 => match agent_pc s t with
-            | Some (a, JT1 d) => match bind_obj (opk x) d o with
-                                 | Some mo => guard (Bool.eqb (zb v) (is_some (pkt (co s d)))) (ret [AStep t] tt_ (x_opk x mo))
-                                 | None => None end
+    | 28 => match jcall_at s t with
+            | Some (a, d, JT1) => match bind_obj (opk x) d o with
+                                  | Some mo => guard (Bool.eqb (zb v) (is_some (pkt (co s d)))) (ret [AStep t] tt_ (x_opk x mo))
+                                  | None => None end
             | _ => None end
-    | 29 => match agent_pc s t with
-            | Some (a, JT2 d) => match bind_obj (opn x) d o with
-                                 | Some mo => guard (Bool.eqb (zb v) (is_some (pan (co s d)))) (ret [AStep t] tt_ (x_opn x mo))
-                                 | None => None end
+    | 29 => match jcall_at s t with
+            | Some (a, d, JT2) => match bind_obj (opn x) d o with
+                                  | Some mo => guard (Bool.eqb (zb v) (is_some (pan (co s d)))) (ret [AStep t] tt_ (x_opn x mo))
+                                  | None => None end
             | _ => None end
     (* ---- schedule_global ---- *)
     | 31 => match stk s t with
